@@ -1,7 +1,10 @@
 """C13 - vertex indices are k-mers and arcs are shift-append (DESIGN.md section 4, C13)."""
 import numpy as np
 
-from vlib import clock, contracts, graphs as G, gens
+import contextlib
+import io
+
+from vlib import alias, clock, contracts, graphs as G, gens
 from vlib.base import import_dsw
 from vlib.coding import monitored
 
@@ -79,9 +82,10 @@ def generate(ctx):
                 yield "vertices", dict(k=k, lo=v0, hi=min(v0 + 64, 4 ** k), typ="int")
             i += 1
     for k in range(1, ctx.pick(7, 8)):
-        if ctx.mine(i):
-            yield "complete", dict(k=k)
-        i += 1
+        for verbose in (False, True):
+            if ctx.mine(i):
+                yield "complete", dict(k=k, verbose=verbose)
+            i += 1
     ctx.exhausted[EXHAUSTIVE[0]] = True
     for _ in range(ctx.pick(3, 12)):
         yield "complete_sequence", dict(k=rng.choice([1, 2, 2, 3, 4]), how=rng.choice(["direct", "remove_nasty_arc"]), rounds=rng.randint(1, 3),
@@ -122,6 +126,15 @@ def _vertex(ctx, dsw, k, v, typ):
     if out.kind != "ok" or _ints(out.value) != want_f:
         ctx.fail("predecessors-differ", "obtain_formers(%r %s = %d, %d) %s, k-mer arithmetic says %s" % (s, typ, v, k, out.describe(), want_f))
         ok = False
+    elif v % 7 == 0:
+        # G1: the caller edits the list it was handed; the next answer must still be the four prepend-k-mers
+        for fn, name, want in ((dsw.obtain_formers, "obtain_formers", want_f), (dsw.obtain_latters, "obtain_latters", want_l)):
+            first = fn(arg, k)
+            checked, same, second = alias.repeat_after_scramble(fn, (arg, k), {}, first)
+            if checked and not same:
+                ctx.fail("answer-changes-after-result-was-edited", "%s(%d, %d) called again after the caller edited the first result in place returns %r, expected %s" % (
+                    name, v, k, second, want))
+            ctx.cls("repeated after the result was scrambled")
     elif ok:
         for u in _ints(out.value):
             o2 = monitored(dsw.obtain_latters, 1000, u, k)
@@ -161,7 +174,8 @@ def check_sampled(ctx, case):
 def check_complete(ctx, case):
     dsw = import_dsw()
     k = case["k"]
-    out = monitored(dsw.get_complete_accessor, 100 * 4 ** k + 5000, k)
+    with contextlib.redirect_stdout(io.StringIO()):
+        out = monitored(dsw.get_complete_accessor, 100 * 4 ** k + 5000, k, verbose=bool(case.get("verbose")))
     if out.kind == "raised" and isinstance(out.exc, contracts.ContractBroken):
         ctx.fail("contract:" + out.exc.name, "get_complete_accessor(%d) returned an entry that is neither -1 nor the shift successor" % k)
     elif out.kind != "ok":
@@ -170,7 +184,7 @@ def check_complete(ctx, case):
         a = np.asarray(out.value)
         if a.shape != (4 ** k, 4) or not np.array_equal(a, G.complete(k)):
             ctx.fail("complete-accessor-differs", "get_complete_accessor(%d) is not the table of j-th successors" % k)
-    ctx.cls("complete|k=%d" % k)
+    ctx.cls("complete|k=%d%s" % (k, " verbose" if case.get("verbose") else ""))
     ctx.done("complete", case, k >= 2)
 
 
@@ -235,6 +249,15 @@ def check_library_graphs(ctx, case):
             if lm is not None:
                 step(dsw.latter_map_to_accessor, lm, k)
                 step(dsw.latter_map_to_accessor, lm, k, threshold=2)
+                # a hand-built map of the same graph: keys and successor lists in arbitrary order
+                keys = list(lm)
+                ctx.rng.shuffle(keys)
+                hand = {}
+                for key in keys:
+                    row = [int(x) for x in lm[key]]
+                    ctx.rng.shuffle(row)
+                    hand[int(key)] = row
+                step(dsw.latter_map_to_accessor, hand, k)
             mat = step(dsw.accessor_to_adjacency_matrix, valid)
             if mat is not None:
                 step(dsw.adjacency_matrix_to_accessor, mat)
@@ -294,6 +317,10 @@ def floors(agg, tier):
             out.append("accessor invariant on %s evaluated %d times" % (fn, m[key[0]] if key else 0))
     if c.get("complete|asked again after an in-place edit (direct)", 0) + c.get("complete|asked again after an in-place edit (remove_nasty_arc)", 0) < 20:
         out.append("complete accessor re-requested after an in-place edit fewer than 20 times")
+    if c.get("repeated after the result was scrambled", 0) < 1000:
+        out.append("result-scrambling repeats: %d < 1000" % c.get("repeated after the result was scrambled", 0))
+    if c.get("complete|k=5 verbose", 0) < 1 or c.get("complete|k=6 verbose", 0) < 1:
+        out.append("complete accessor with progress output at orders 5 and 6 not exercised")
     for typ in ("int64", "int32"):
         if c.get("index-type|" + typ, 0) < 50:
             out.append("index type %s observed %d" % (typ, c.get("index-type|" + typ, 0)))
